@@ -256,9 +256,10 @@ Lemma pres_common_first_packet_not_metadata : forall R h, okrel R -> Pres R (com
 Proof. intros R h HR. unfold common_first_packet_not_metadata. pres. Qed.
 #[export] Hint Resolve pres_common_first_packet_not_metadata : pres.
 
-Lemma pres_handle_eof_without_previous_metadata : forall R ck sz, okrel0 R ->
-  Pres R (handle_eof_without_previous_metadata ck sz).
-Proof. intros R ck sz HR. unfold handle_eof_without_previous_metadata. pres. Qed.
+(* since the F32 repair an EOF (cancel) before the Metadata runs handle_eof_pdu, hence okrel *)
+Lemma pres_handle_eof_without_previous_metadata : forall R c ck sz, okrel R ->
+  Pres R (handle_eof_without_previous_metadata c ck sz).
+Proof. intros R c ck sz HR. unfold handle_eof_without_previous_metadata. pres. Qed.
 #[export] Hint Resolve pres_handle_eof_without_previous_metadata : pres.
 
 Lemma pres_handle_fd_without_previous_metadata : forall R first off data, okrel0 R ->
@@ -654,13 +655,13 @@ Proof.
 Qed.
 
 (* C05: before the Metadata nothing is written *)
-Lemma pre_metadata_no_write : forall s first off data ck sz,
+Lemma pre_metadata_no_write : forall s first off data c ck sz,
   fs_d (fst (handle_fd_without_previous_metadata first off data s)) = fs_d s /\
-  fs_d (fst (handle_eof_without_previous_metadata ck sz s)) = fs_d s.
+  fs_d (fst (handle_eof_without_previous_metadata c ck sz s)) = fs_d s.
 Proof.
   intros. split.
   - exact (proj1 (pres_handle_fd_without_previous_metadata SameFs first off data (r_ok0 _ ok_SameFs) s)).
-  - exact (proj1 (pres_handle_eof_without_previous_metadata SameFs ck sz (r_ok0 _ ok_SameFs) s)).
+  - exact (proj1 (pres_handle_eof_without_previous_metadata SameFs c ck sz ok_SameFs s)).
 Qed.
 
 (* ---- which exceptions a procedure can raise *)
